@@ -749,6 +749,28 @@ theorem doq_frame_is_library_with_id_zero {β ν δ : Type} (lib : Lib β ν δ)
     | err e => rfl
     | panic => rfl
 
+/-- **DNS-over-HTTPS: the body is the library's encoding** for every message the
+library encodes (status 200), with no hypothesis at all — this transport never
+declares `AllowDirectPack`, so the pooled packer is not on its path and the
+pooled state is not even touched; a message the library refuses is a 500 with
+no DNS body. -/
+theorem doh_body_is_library {β ν δ : Type} (lib : Lib β ν δ) (m : Msg ν) (heap : Heap β) (st : PState β δ) :
+    (∀ b, (libPack lib m heap).1 = .ok b → dohResponse lib m heap st = (200, b)) ∧
+    ((∀ b, (libPack lib m heap).1 ≠ .ok b) → dohResponse lib m heap st = (500, [])) ∧
+    (writeMsg lib m heap st false false).st = st ∧ (writeMsg lib m heap st false false).heap = heap := by
+  have hev : (writeMsg lib m heap st false false).events = [.writeMsg] := by simp [writeMsg]
+  refine ⟨?_, ?_, by simp [writeMsg], by simp [writeMsg]⟩
+  · intro b hb
+    unfold dohResponse
+    rw [hev, hb]
+  · intro hno
+    unfold dohResponse
+    rw [hev]
+    cases ho : (libPack lib m heap).1 with
+    | ok b => exact absurd ho (hno b)
+    | err e => rfl
+    | panic => rfl
+
 /-- **What a cache entry keeps** is `PackClone` of the storable view, hence
 (`packClone_eq_library`) the library's encoding of that view — header,
 question, answer, authority, the additional section without its OPT records,
@@ -1038,6 +1060,11 @@ example : (prepareStripped toyLib (fun _ => false) (fun _ => true) true toyMsg t
   have := (stripped_body_is_library toyLib toy_mono (fun _ => false) (fun _ => true) true toyMsg toyHeap toySt 77 toy_clean
     (by decide) (by decide)).1
   simpa using this
+
+-- the toy message over DoH: 200 and the library's bytes
+example : ∃ b, dohResponse toyLib toyMsg toyHeap toySt = (200, b) ∧ (libPack toyLib toyMsg toyHeap).1 = .ok b := by
+  obtain ⟨s, _, hl⟩ := handled_eq_library toyLib toy_mono toyMsg toyHeap toySt toy_clean (by decide) toy_handled
+  exact ⟨s.data, (doh_body_is_library toyLib toyMsg toyHeap toySt).1 _ hl, hl⟩
 
 -- the view drops both OPTs (pointers 2 and 3) and keeps the rest in order; the toy primitives satisfy Room
 example : (storableView toyHeap toyMsg).extra = [some 1, some 4] ∧ (storableView toyHeap toyMsg).compress = true := by decide
